@@ -280,6 +280,13 @@ fn wall_geometry(wall: &hulc::bdl::Wall, bdl: &Data) -> Result<WallGeom, Error> 
         }
     };
 
+    // Coordenadas enormes en el archivo pueden desbordar el rango de f32 al calcular la geometría
+    if !polygon.iter().all(|p| p.x.is_finite() && p.y.is_finite())
+        || !position.coords.iter().all(|c| c.is_finite())
+    {
+        bail!("Geometría no finita en el opaco {}", wall.name)
+    }
+
     Ok(WallGeom {
         azimuth: fround2(orientation_bdl_to_52016(
             global_deviation + space.angle_with_building_north + wall.angle_with_space_north,
@@ -573,6 +580,16 @@ fn shades_from_bdl(bdl: &Data) -> Vec<Shade> {
                 return None;
             };
 
+            // Igual que en los opacos, descartamos geometrías que desbordan el rango de f32
+            let polygon: Vec<_> = polygon;
+            if !polygon.iter().all(|p| p.x.is_finite() && p.y.is_finite())
+                || !position.map_or(true, |p| p.coords.iter().all(|c| c.is_finite()))
+                || !tilt.is_finite()
+                || !azimuth.is_finite()
+            {
+                log::warn!("Sombra {} con geometría no finita. Se ignora", name);
+                return None;
+            }
             Some(Shade {
                 id,
                 name,
